@@ -325,121 +325,6 @@ func x5CanonExpr(e *Expr, depth int) string {
 	return "?" + e.String()
 }
 
-// x5DecisionTable evaluates a branch-only function over all assignments of its
-// branch atoms (treated as independent) and returns atom list + result column.
-func x5DecisionTable(fn *ssa.Function) (atoms []string, eval func(assign map[string]bool) (string, bool), ok bool) {
-	set := map[string]bool{}
-	for _, b := range fn.Blocks {
-		if len(b.Instrs) == 0 {
-			return nil, nil, false
-		}
-		if iff, isIf := b.Instrs[len(b.Instrs)-1].(*ssa.If); isIf {
-			a, _ := Truthy(Desc(iff.Cond))
-			s := x5CanonExpr(a, 0)
-			if strings.Contains(s, "?") {
-				return nil, nil, false
-			}
-			set[s] = true
-		}
-	}
-	// non-constant boolean results (the last operand of an || chain) are atoms too
-	var resultAtom func(v ssa.Value, d int) bool
-	resultAtom = func(v ssa.Value, d int) bool {
-		switch x := v.(type) {
-		case *ssa.Const:
-			return true
-		case *ssa.Phi:
-			if d > 6 {
-				return false
-			}
-			for _, e := range x.Edges {
-				if !resultAtom(e, d+1) {
-					return false
-				}
-			}
-			return true
-		}
-		if b, ok := v.Type().Underlying().(*types.Basic); !ok || b.Kind() != types.Bool {
-			return false
-		}
-		a, _ := Truthy(Desc(v))
-		s := x5CanonExpr(a, 0)
-		if strings.Contains(s, "?") {
-			return false
-		}
-		set[s] = true
-		return true
-	}
-	for _, b := range fn.Blocks {
-		if ret, isRet := b.Instrs[len(b.Instrs)-1].(*ssa.Return); isRet && len(ret.Results) == 1 {
-			if !resultAtom(ret.Results[0], 0) {
-				return nil, nil, false
-			}
-		}
-	}
-	for a := range set {
-		atoms = append(atoms, a)
-	}
-	sort.Strings(atoms)
-	eval = func(assign map[string]bool) (string, bool) {
-		var prev *ssa.BasicBlock
-		b := fn.Blocks[0]
-		for steps := 0; steps < 200; steps++ {
-			switch t := b.Instrs[len(b.Instrs)-1].(type) {
-			case *ssa.If:
-				a, pol := Truthy(Desc(t.Cond))
-				v := assign[x5CanonExpr(a, 0)]
-				if !pol {
-					v = !v
-				}
-				prev = b
-				if v {
-					b = b.Succs[0]
-				} else {
-					b = b.Succs[1]
-				}
-			case *ssa.Jump:
-				prev, b = b, b.Succs[0]
-			case *ssa.Return:
-				if len(t.Results) != 1 {
-					return "", false
-				}
-				v := t.Results[0]
-				for i := 0; i < 8; i++ {
-					if k, ok := v.(*ssa.Const); ok && k.Value != nil {
-						return k.Value.ExactString(), true
-					}
-					phi, ok := v.(*ssa.Phi)
-					if !ok {
-						if bt, isB := v.Type().Underlying().(*types.Basic); isB && bt.Kind() == types.Bool {
-							a, pol := Truthy(Desc(v))
-							return fmt.Sprint(assign[x5CanonExpr(a, 0)] == pol), true
-						}
-						return "", false
-					}
-					if phi.Block() != b || prev == nil {
-						return "", false
-					}
-					found := false
-					for j, p := range b.Preds {
-						if p == prev {
-							v, found = phi.Edges[j], true
-						}
-					}
-					if !found {
-						return "", false
-					}
-				}
-				return "", false
-			default:
-				return "", false
-			}
-		}
-		return "", false
-	}
-	return atoms, eval, true
-}
-
 func c06R5(c *Ctx) {
 	const R = "C06-R5"
 	c.Doc(R, "server.acceptHeader and miekg/dns defaultMsgAcceptFunc are the same decision table over the header predicates (QR, opcode, the four counts) under the verdict mapping OK↔Accept, Ignore↔Ignore, NotImplemented↔RejectNotImplemented, FormatError↔Reject; every caller of acceptHeader compares the verdict with every acceptVerdict constant, reaches ServeRaw* on no non-OK edge, writes nothing on Ignore, and rejects in place on the other two; rejectInPlace echoes ID/opcode/RD with QR set and rcode ∈ {FORMERR, NOTIMP}; serveMsgBy answers QDCOUNT != 1 with FORMERR before the chain; the BADVERS and foreign-opcode arms of edns.ServeDNS never continue the chain; the wire branch is entered only for opcode 0 and EDNS version 0")
@@ -514,15 +399,20 @@ func c06R5(c *Ctx) {
 		c.unresolved(R, "server.acceptVerdict", "type not found")
 		return
 	}
-	allVerdicts := map[string]bool{}
+	allVerdicts := map[string]int64{}
 	sc := vt.Pkg().Scope()
 	for _, n := range sc.Names() {
 		if k, ok := sc.Lookup(n).(*types.Const); ok && types.Identical(k.Type(), vt.Type()) {
-			allVerdicts[k.Val().ExactString()] = true
+			if v, ok := constant.Int64Val(constant.ToInt(k.Val())); ok {
+				allVerdicts[n] = v
+			}
 		}
 	}
-	isServe := isCallNamed("ServeRaw", "ServeRawInline", "ServeRawReplay")
-	isWrite := isCallNamed("rejectInPlace", "Write", "WriteMsg", "stage")
+	var vnames []string
+	for n := range allVerdicts {
+		vnames = append(vnames, n)
+	}
+	sort.Strings(vnames)
 	isReject := isCallNamed("rejectInPlace")
 	verdictPat := CallTo(aho)
 	nCallers := 0
@@ -532,28 +422,25 @@ func c06R5(c *Ctx) {
 		}
 		nCallers++
 		fn := TopLevel(s.Fn)
-		compared := map[string]bool{}
-		for _, b := range fn.Blocks {
-			if iff, ok := b.Instrs[len(b.Instrs)-1].(*ssa.If); ok {
-				a, _ := Truthy(Desc(iff.Cond))
-				if a != nil && a.K == EBin && a.Op == token.EQL && verdictPat(a.X) {
-					if k := strip(a.Y); k != nil && k.K == EConst && k.Val != nil {
-						compared[k.Val.ExactString()] = true
-					}
-				}
+		// what the entry point does for each verdict the type can hold, decided on
+		// the CFG with the verdict fixed (switch, if chain, != OK … all the same)
+		for _, vn := range vnames {
+			sig := x5VerdictBehaviour(fn, isPlainCallTo(aho), verdictPat, allVerdicts[vn])
+			key := "C06-R5|" + fnKey(fn) + "|verdict " + vn
+			switch {
+			case sig.bad != "":
+				c.undecided(R, key, instrPos(s.Instr), "cannot interpret the entry point: "+sig.bad)
+			case !sig.reached:
+				c.unresolved(R, key, "no path computes the verdict")
+			case vn == "acceptOK":
+				c.x5Decide(R, key, instrPos(s.Instr), sig.serve, "accepted packets reach the handler", "an accepted packet never reaches ServeRaw*")
+			case vn == "acceptIgnore":
+				c.x5Decide(R, key, instrPos(s.Instr), !sig.serve && !sig.write, "ignored packets are neither served nor answered",
+					fmt.Sprintf("a packet that is itself a response is served=%v / answered=%v", sig.serve, sig.write))
+			default:
+				c.x5Decide(R, key, instrPos(s.Instr), !sig.serve && sig.rejectEvery, "rejected in place on every path, never served",
+					fmt.Sprintf("verdict %s: reaches the handler=%v, rejectInPlace on every path=%v — an unhandled verdict falls through to serving", vn, sig.serve, sig.rejectEvery))
 			}
-		}
-		c.x5Decide(R, "C06-R5|"+fnKey(fn)+"|verdict switch exhaustive", instrPos(s.Instr), sameSet(compared, allVerdicts),
-			"verdict compared with every acceptVerdict constant "+setString(allVerdicts), "verdict switch covers "+setString(compared)+" of "+setString(allVerdicts)+": an unhandled verdict falls through to serving")
-		edge := func(name string, holds bool) Barrier {
-			return OnCmp("verdict=="+name, verdictPat, token.EQL, IsConstInt(verdictVal[name]), holds)
-		}
-		for _, v := range []string{"acceptIgnore", "acceptNotImplemented", "acceptFormatError"} {
-			c.AfterEdge(R, fn, "non-OK verdict reaches the handler", edge(v, true), isServe)
-		}
-		c.AfterEdge(R, fn, "ignored packet is answered", edge("acceptIgnore", true), isWrite)
-		for _, v := range []string{"acceptNotImplemented", "acceptFormatError"} {
-			c.AfterEdge(R, fn, "rejected packet returns without rejectInPlace", edge(v, true), isReturn, Barrier{Name: "rejectInPlace", Instr: isReject})
 		}
 		// the verdict handed to rejectInPlace on those edges is the verdict itself
 		for _, in := range instrsWhere(fn, isReject) {
@@ -623,7 +510,7 @@ func c06R5(c *Ctx) {
 		}
 		c.x5Decide(R, "C06-R5|dnsutil.NotSupported|rcode", ns.Pos(), n == 1, "NotSupported answers NOTIMP", "NotSupported does not set Rcode = NOTIMP")
 	}
-	c.Floor(R, 44)
+	c.Floor(R, 32)
 }
 
 // x5OrOperands flattens an |-tree.
@@ -716,16 +603,29 @@ func c06RejectShape(c *Ctx, R string, fn *ssa.Function, rxF *types.Var, notImpl 
 	fe, _ := x5ConstInt64(c, R, x5DnsPkg+".RcodeFormatError")
 	ni, _ := x5ConstInt64(c, R, x5DnsPkg+".RcodeNotImplemented")
 	c.x5Decide(R, kp+"rcode byte", instrPos(b3), sameSet(got, map[string]bool{fmt.Sprint(fe): true, fmt.Sprint(ni): true}), "byte 3 ∈ {FORMERR, NOTIMP}", "byte 3 of the rejection may be "+setString(got))
-	// NOTIMP exactly for the NotImplemented verdict
-	for _, b := range fn.Blocks {
-		iff, ok := b.Instrs[len(b.Instrs)-1].(*ssa.If)
-		if !ok {
-			continue
-		}
-		if m, _ := CmpMatch(Desc(iff.Cond), func(e *Expr) bool { return e.K == EParam && e.Name == "verdict" }, token.EQL, IsConstInt(notImpl)); m {
-			c.ok(R, kp+"NOTIMP guard", instrPos(iff), "rcode switches on verdict == acceptNotImplemented")
-			return
-		}
+	// NOTIMP exactly for the NotImplemented verdict: interpret the function with the
+	// verdict fixed and read the constant that reaches byte 3
+	isVerdict := func(e *Expr) bool { e = strip(e); return e != nil && e.K == EParam && e.Name == "verdict" }
+	rcodeFor := func(k int64) (string, bool) {
+		it := &x5Interp{fn: fn, resolve: func(v ssa.Value, e *Expr) (bool, bool) { return x5ConcreteCmp(e, isVerdict, k) }, assign: map[string]bool{}}
+		got, ok := "", false
+		it.walk(Point{fn.Blocks[0], 0}, func(in ssa.Instruction) bool {
+			if in == ssa.Instruction(b3) {
+				if kv, isC := it.value(b3.Val).(*ssa.Const); isC && kv.Value != nil {
+					got, ok = kv.Value.ExactString(), true
+				}
+				return true
+			}
+			return false
+		})
+		return got, ok && it.bad == ""
 	}
-	c.violation(R, kp+"NOTIMP guard", fn.Pos(), "rcode choice is not keyed on verdict == acceptNotImplemented")
+	rNI, ok1 := rcodeFor(notImpl)
+	rFE, ok2 := rcodeFor(notImpl + 1)
+	if !ok1 || !ok2 {
+		c.undecided(R, kp+"NOTIMP guard", fn.Pos(), "cannot resolve the rcode byte for a fixed verdict")
+		return
+	}
+	c.x5Decide(R, kp+"NOTIMP guard", instrPos(b3), rNI == fmt.Sprint(ni) && rFE == fmt.Sprint(fe), "rcode = NOTIMP exactly for verdict acceptNotImplemented, FORMERR otherwise",
+		fmt.Sprintf("rcode byte is %s for acceptNotImplemented and %s for acceptFormatError", rNI, rFE))
 }
